@@ -1,15 +1,25 @@
 """C06 -- deep copies of a tree are independent of the original.
 
-E1: BFS over histories of three kinds of event on up to 3 live trees:
+E1: BFS over histories of three kinds of event on up to 3 live trees, once per library (the first event of a
+history, ("lib", name), says which library the first tree is parsed from; a history without it is on `flat`):
+
+  flat   top-level classes only: component types, extends, modifications
+  pkg    packages: a package-qualified component type (Lib.R r) and extends (extends Lib.Sub.Deep), a qualified
+         import (import Lib.R) and an unqualified import (import Lib.Sub.*) in an enclosing package, a class
+         nested two levels deep (Lib.Sub.Deep) that finds its component type in an enclosing package; every
+         class that is observed or edited is nested in a package
 
   copy(i)            tree_n = copy.deepcopy(tree_i)
-  edit(i, op, K)     add/remove symbol/equation/class through the AST API
+  edit(i, op, K)     add/remove symbol/equation/class through the AST API; replace_class = remove_class(K) +
+                     add_class(a different class of the same name, a new object no earlier copy or lookup saw)
   obs(i, route, K)   flatten class K ('*' = every class, one after the other) of the *live* tree i through
                      route in {inplace: tree.flatten(tree_i, K); sympy / xml: the backend's generate(tree_i, K),
                      which deep-copies the tree and flattens the copy} -- the result is compared with the
                      reference, and the event stays in the history: whatever the implementation remembers of
                      an observation (inside the tree or outside it) is there when the tree is later copied,
-                     edited and observed again.
+                     edited and observed again.  The `inplace` route is a caller that holds on to its class
+                     references: ONE ComponentRef object per class name for the whole history (all trees, obs
+                     events and final observations alike); the other routes build a new reference per request.
 
 Reference: a *fresh parse of the library to which only that tree's own edits were applied*, observed
 through the same route -- so an edit must be visible in its own tree and invisible in all others,
@@ -66,24 +76,90 @@ equation
 end Top;
 """
 
-EDIT_CLASSES = ["Leaf", "Base", "Top"]
-# order of obs(i, route, '*'); Top (reaches every other class) last, the class that exists only after add_class first
-FLAT_CLASSES = ["Extra", "Leaf", "Base", "Mid", "Top"]
-OPS = ["add_symbol", "add_equation", "remove_equation", "remove_symbol", "add_class", "remove_class"]
-EDIT_ACTIONS = [(op, cls) for op in OPS for cls in (EDIT_CLASSES if op != "add_class" else ["-"])]
-OBS_ROUTES = ["inplace", "sympy", "xml"]  # routes of obs events (xml = deepcopy + flatten + rendering, so a bare
-#                                           'copy' route as an event would add nothing to it)
+LIB_PKG = """
+package Lib
+  model R
+    Real v(start = 1);
+    parameter Real g = 2;
+  equation
+    der(v) = -g * v;
+  end R;
+
+  package Sub
+    model Deep
+      parameter Real p = 1;
+      R ri;
+      Real b;
+    equation
+      b = p * ri.v;
+    end Deep;
+  end Sub;
+end Lib;
+
+package P
+  import Lib.R;
+  import Lib.Sub.*;
+
+  model M
+    extends Lib.Sub.Deep(p = 4);
+    R a(g = 3);
+    Deep dd(p = 5);
+    Lib.R r;
+    Real s;
+  equation
+    s = a.v + b + dd.b + r.v;
+  end M;
+end P;
+"""
+
+OPS = ["add_symbol", "add_equation", "remove_equation", "remove_symbol", "add_class", "remove_class", "replace_class"]
 BACKENDS = ["sympy", "xml"]
+ALL_ROUTES = ["inplace", "sympy", "xml"]  # routes of obs events (xml = deepcopy + flatten + rendering, so a bare
+#                                           'copy' route as an event would add nothing to it)
+
+# Per library: `edit`: classes the edits act on (quick / thorough), `flat`: order of obs(i, route, '*') -- the class
+# that exists only after add_class first, the class that reaches every other class last --, `add_to`: the class
+# add_class adds `Extra` to ('' = the root), `replace`: the different class of the same name replace_class puts in
+# (same interface, so the classes using it still flatten; other start / parameter values, one more variable and
+# equation), `routes`: routes of obs events, `bounds`: history length, deviations (edit + obs events), edit events.
+LIBS = {
+    "flat": {
+        "text": LIB,
+        "edit": {"quick": ["Leaf", "Base"], "thorough": ["Leaf", "Base", "Top"]},
+        "flat": ["Extra", "Leaf", "Base", "Mid", "Top"],
+        "add_to": "",
+        "replace": {
+            "Leaf": "model Leaf Real x(start = 7); parameter Real k = 8; Real w; equation der(x) = -k * x; w = 2 * x; end Leaf;",
+            "Base": "model Base parameter Real p = 6; Real b; Real c; equation b = 2 * p; c = b; end Base;",
+            "Top": "model Top Mid m; Real y; Real w; equation y = 3 * m.s; w = y; end Top;",
+        },
+        "routes": {"quick": ALL_ROUTES, "thorough": ALL_ROUTES},
+        "bounds": {"quick": (3, 2, 2), "thorough": (4, 3, 2)},
+    },
+    "pkg": {
+        "text": LIB_PKG,
+        "edit": {"quick": ["Lib.R", "Lib.Sub.Deep", "P.M"], "thorough": ["Lib.R", "Lib.Sub.Deep", "P.M"]},
+        "flat": ["Lib.Extra", "Lib.R", "Lib.Sub.Deep", "P.M"],
+        "add_to": "Lib",
+        "replace": {
+            "Lib.R": "model R Real v(start = 7); parameter Real g = 8; Real w; equation der(v) = -g * v; w = 2 * v; end R;",
+            "Lib.Sub.Deep": "model Deep parameter Real p = 6; R ri; Real b; Real c; equation b = 2 * p * ri.v; c = b; end Deep;",
+            "P.M": "model M R a(g = 9); Lib.R r; Real s; Real w; equation s = a.v - r.v; w = s; end M;",
+        },
+        "routes": {"quick": ["inplace"], "thorough": ALL_ROUTES},
+        "bounds": {"quick": (3, 2, 1), "thorough": (4, 3, 1)},
+    },
+}
+LIB_ORDER = ["flat", "pkg"]
 KIND = {"copy": "flat", "inplace": "flat", "sympy": "sympy", "xml": "xml"}
 ROUTE_TEXT = {
     "copy": "tree.flatten(deepcopy(tree), K)",
-    "inplace": "tree.flatten(tree, K)",
+    "inplace": "tree.flatten(tree, K) with the caller's one ComponentRef for K",
     "sympy": "backends.sympy.generator.generate(tree, K)",
     "xml": "backends.xml.generator.generate(tree, K)",
 }
 MAX_TREES = 3
 MAX_OBS = 2
-BOUNDS = {"quick": (3, 2, 2), "thorough": (4, 3, 2)}  # history length, deviations (edit + obs events), edit events
 _CFG = {"tier": "quick", "obs_classes": ["*"]}
 _EXPECT = {}
 
@@ -92,27 +168,54 @@ def _init(tier):
     _CFG["tier"] = tier
 
 
-def fresh_tree():
+def edit_actions(lib, tier=None):
+    classes = LIBS[lib]["edit"][tier or _CFG["tier"]]
+    return [(op, cls) for op in OPS for cls in (classes if op != "add_class" else ["-"])]
+
+
+def fresh_tree(lib="flat"):
     from pymoca import parser
 
-    return parser.parse(LIB, bypass_cache=True)
+    return parser.parse(LIBS[lib]["text"], bypass_cache=True)
 
 
-def apply_edit(tree, op, cls, serial):
+def _resolve(tree, dotted):
+    """The class `dotted` names by walking .classes from the root (None if it is not there); '' = the root."""
+    c = tree
+    for name in dotted.split(".") if dotted else []:
+        c = c.classes.get(name)
+        if c is None:
+            return None
+    return c
+
+
+def apply_edit(tree, op, cls, serial, lib="flat"):
     """One edit through the public AST API.  Deterministic content; `serial` numbers this tree's edits."""
-    from pymoca import ast
+    from pymoca import ast, parser
 
     if op == "add_class":
+        where = _resolve(tree, LIBS[lib]["add_to"])
+        if where is None:
+            return
         c = ast.Class(name="Extra", type="model")
         c.add_symbol(ast.Symbol(name="q%d" % serial, type=ast.ComponentRef(name="Real")))
         c.add_equation(ast.Equation(left=ast.ComponentRef(name="q%d" % serial), right=ast.Primary(value=serial)))
-        tree.add_class(c)
+        where.add_class(c)
         return
-    if cls not in tree.classes:
+    k = _resolve(tree, cls)
+    if k is None:
         return  # class was removed from this tree earlier: edit has no target, nothing happens
-    k = tree.classes[cls]
     if op == "remove_class":
-        tree.remove_class(k)
+        k.parent.remove_class(k)
+    elif op == "replace_class":
+        where = k.parent
+        donor = parser.parse(LIBS[lib]["replace"][cls], bypass_cache=True)
+        new = donor.classes[k.name]
+        donor.remove_class(new)
+        new.add_symbol(ast.Symbol(name="rr%d" % serial, type=ast.ComponentRef(name="Real")))
+        new.add_equation(ast.Equation(left=ast.ComponentRef(name="rr%d" % serial), right=ast.Primary(value=serial)))
+        where.remove_class(k)
+        where.add_class(new)
     elif op == "add_symbol":
         k.add_symbol(ast.Symbol(name="zz%d" % serial, type=ast.ComponentRef(name="Real")))
     elif op == "remove_symbol":
@@ -132,8 +235,9 @@ def _sha(text):
     return hashlib.sha1(text.encode()).hexdigest()[:16]
 
 
-def observe(tree, route, cls):
-    """('ok', digest of the flat model / generated text) or ('exc', exception type) of one request."""
+def observe(tree, route, cls, refs=None):
+    """('ok', digest of the flat model / generated text) or ('exc', exception type) of one request.  `refs`: the
+    ComponentRef objects the caller of the in-place route holds on to (class name -> reference)."""
     import copy
 
     from pymoca import ast
@@ -142,7 +246,13 @@ def observe(tree, route, cls):
     try:
         if route in ("copy", "inplace"):
             t = copy.deepcopy(tree) if route == "copy" else tree
-            flat = ptree.flatten(t, ast.ComponentRef.from_string(cls))
+            if route == "inplace" and refs is not None:
+                if cls not in refs:
+                    refs[cls] = ast.ComponentRef.from_string(cls)
+                ref = refs[cls]
+            else:
+                ref = ast.ComponentRef.from_string(cls)
+            flat = ptree.flatten(t, ref)
             return ("ok", _sha(json.dumps(ast.Node.to_json(flat), sort_keys=True, default=repr)))
         if route == "sympy":
             from pymoca.backends.sympy import generator as sympy_gen
@@ -157,35 +267,40 @@ def observe(tree, route, cls):
     raise ValueError(route)
 
 
-def _expect_job(edits):
+def _expect_job(job):
     """Reference results of one edit list: every class through every kind of route, each on its own fresh parse."""
+    lib, edits, kinds = job
     res = {}
     for kind, route in (("flat", "inplace"), ("sympy", "sympy"), ("xml", "xml")):
+        if kind not in kinds:
+            continue
         res[kind] = {}
-        for cls in FLAT_CLASSES:
-            t = fresh_tree()
+        for cls in LIBS[lib]["flat"]:
+            t = fresh_tree(lib)
             for n, (op, k) in enumerate(edits):
-                apply_edit(t, op, k, n)
+                apply_edit(t, op, k, n, lib)
             res[kind][cls] = observe(t, route, cls)
-    return edits, res
+    return lib, edits, res
 
 
-def prepare_expected(edit_lists, pool=None):
-    todo = [e for e in edit_lists if e not in _EXPECT]
-    for edits, res in (pool.map(_expect_job, todo) if pool is not None else map(_expect_job, todo)):
-        _EXPECT[edits] = res
+def prepare_expected(lib, edit_lists, kinds=("flat", "sympy", "xml"), pool=None):
+    todo = [(lib, e, tuple(kinds)) for e in edit_lists if (lib, e) not in _EXPECT]
+    for lib_, edits, res in (pool.map(_expect_job, todo) if pool is not None else map(_expect_job, todo)):
+        _EXPECT[(lib_, edits)] = res
 
 
-def expected(edits, route, cls):
-    return _EXPECT[tuple(edits)][KIND[route]][cls]  # KeyError = bug of the check (table is built up front)
+def expected(lib, edits, route, cls):
+    return _EXPECT[(lib, tuple(edits))][KIND[route]][cls]  # KeyError = bug of the check (table is built up front)
 
 
 class World:
     def __init__(self):
-        self.trees = [fresh_tree()]
+        self.lib = "flat"
+        self.trees = None  # parsed by the first event
         self.edits = [()]
         self.parent = [None]
         self.obslog = ()  # (tree, route, class, number of edits of that tree so far, number of trees so far)
+        self.refs = {}  # the references the caller of the in-place route holds on to
         self.n_events = 0
         self.n_edit_events = 0
 
@@ -193,6 +308,13 @@ class World:
         """Returns the violations of the event itself (only obs events are compared with anything)."""
         import copy
 
+        if ev[0] == "lib":
+            assert self.trees is None, "lib must be the first event"
+            self.lib = ev[1]
+            self.trees = [fresh_tree(self.lib)]
+            return []
+        if self.trees is None:
+            self.trees = [fresh_tree(self.lib)]
         self.n_events += 1
         if ev[0] == "copy":
             i = ev[1]
@@ -203,24 +325,25 @@ class World:
         if ev[0] == "edit":
             _, i, op, cls = ev
             self.n_edit_events += 1
-            apply_edit(self.trees[i], op, cls, len(self.edits[i]))
+            apply_edit(self.trees[i], op, cls, len(self.edits[i]), self.lib)
             self.edits[i] = self.edits[i] + ((op, cls),)
             return []
         _, i, route, cls = ev
         self.obslog = self.obslog + ((i, route, cls, len(self.edits[i]), len(self.trees)),)
-        classes = FLAT_CLASSES if cls == "*" else [cls]
+        classes = LIBS[self.lib]["flat"] if cls == "*" else [cls]
         return self.look(i, [route], classes, "obs event")
 
     def look(self, i, routes, classes, what):
         viol = []
+        lib = self.lib
         for route in routes:
             for cls in classes:
-                got = observe(self.trees[i], route, cls)
-                exp = expected(self.edits[i], route, cls)
+                got = observe(self.trees[i], route, cls, self.refs)
+                exp = expected(lib, self.edits[i], route, cls)
                 if got == exp:
                     continue
-                other = [j for j in range(len(self.trees)) if j != i and expected(self.edits[j], route, cls) == got]
-                past = [n for n in range(len(self.edits[i])) if expected(self.edits[i][:n], route, cls) == got]
+                other = [j for j in range(len(self.trees)) if j != i and expected(lib, self.edits[j], route, cls) == got]
+                past = [n for n in range(len(self.edits[i])) if expected(lib, self.edits[i][:n], route, cls) == got]
                 kind = "sees-other-tree" if other else "sees-own-past" if past else "wrong-result"
                 sig = "%s:%s" % (kind, "exception" if got[0] == "exc" else "model")
                 if route in BACKENDS:
@@ -233,8 +356,9 @@ class World:
                 viol.append(
                     (
                         sig,
-                        "%s: tree %d (edits %r, copied from %r, observed before: %r): %s for K=%s gives %s, expected %s%s"
-                        % (what, i, list(self.edits[i]), self.parent[i], [list(o[:3]) for o in self.obslog],
+                        "%s: library %s, tree %d (edits %r, copied from %r, observed before: %r): %s for K=%s gives %s, "
+                        "expected %s%s"
+                        % (what, lib, i, list(self.edits[i]), self.parent[i], [list(o[:3]) for o in self.obslog],
                            ROUTE_TEXT[route], cls, "%s:%s" % got, "%s:%s" % exp, why),
                     )
                 )
@@ -246,23 +370,25 @@ class World:
         routes = [r for r in BACKENDS if r in seen] + ["copy"]
         if "inplace" in seen or _CFG["tier"] == "thorough":
             routes.append("inplace")  # last: the only route that works on the live tree itself
-        return self.look(i, routes, FLAT_CLASSES[::-1], "final observation")
+        return self.look(i, routes, LIBS[self.lib]["flat"][::-1], "final observation")
 
     def key(self):
-        return (tuple(self.edits), tuple(self.parent), self.obslog, dump.digest(self.trees))
+        return (self.lib, tuple(self.edits), tuple(self.parent), self.obslog, dump.digest(self.trees))
 
     def events(self):
-        depth, _, max_edits = BOUNDS[_CFG["tier"]]
+        tier = _CFG["tier"]
+        depth, _, max_edits = LIBS[self.lib]["bounds"][tier]
+        n_trees = len(self.edits)
         evs = []
-        if len(self.trees) < MAX_TREES:
-            evs += [("copy", i) for i in range(len(self.trees))]
+        if n_trees < MAX_TREES:
+            evs += [("copy", i) for i in range(n_trees)]
         if self.n_edit_events < max_edits:
-            for i in range(len(self.trees)):
-                for op, cls in EDIT_ACTIONS:
+            for i in range(n_trees):
+                for op, cls in edit_actions(self.lib, tier):
                     evs.append(("edit", i, op, cls))
         if len(self.obslog) < MAX_OBS and self.n_events + 1 < depth:
-            for i in range(len(self.trees)):
-                for route in OBS_ROUTES:
+            for i in range(n_trees):
+                for route in LIBS[self.lib]["routes"][tier]:
                     for cls in _CFG["obs_classes"]:
                         evs.append(("obs", i, route, cls))
         return evs
@@ -272,6 +398,8 @@ def build(hist):
     w = World()
     for ev in hist:
         w.apply(tuple(ev))
+    if w.trees is None:
+        w.trees = [fresh_tree(w.lib)]
     return w
 
 
@@ -301,37 +429,68 @@ def expand(hist):
     return out
 
 
-def edit_lists(max_edits):
-    return [tuple(p) for n in range(max_edits + 1) for p in itertools.product(EDIT_ACTIONS, repeat=n)]
+def edit_lists(lib, tier):
+    acts = edit_actions(lib, tier)
+    return [tuple(p) for n in range(LIBS[lib]["bounds"][tier][2] + 1) for p in itertools.product(acts, repeat=n)]
+
+
+def _kinds(lib, tier):
+    return ["flat"] + [r for r in BACKENDS if r in LIBS[lib]["routes"][tier]]
 
 
 def run(ctx):
     _init(ctx.tier)
-    depth, max_dev, max_edits = BOUNDS[ctx.tier]
-    with common.Pool() as pool:  # reference table first, in processes of its own
-        prepare_expected(edit_lists(max_edits), pool)
-    with common.Pool(init=_init, initargs=(ctx.tier,)) as pool:  # forked now: workers inherit the table
-        st = bfs.search(ctx, pool, expand, init_key=build(()).key(), max_depth=depth, max_dev=max_dev)
+    with common.Pool() as pool:  # reference tables first, in processes of their own
+        for lib in LIB_ORDER:
+            prepare_expected(lib, edit_lists(lib, ctx.tier), _kinds(lib, ctx.tier), pool)
+    per_lib = {}
+    with common.Pool(init=_init, initargs=(ctx.tier,)) as pool:  # forked now: workers inherit the tables
+        for lib in LIB_ORDER:
+            depth, max_dev, _ = LIBS[lib]["bounds"][ctx.tier]
+            init = (("lib", lib),)
+            per_lib[lib] = bfs.search(ctx, pool, expand, init_key=build(init).key(), max_depth=depth, max_dev=max_dev,
+                                      init_hist=init)
+    st = {
+        "states": sum(s["states"] for s in per_lib.values()),
+        "transitions": sum(s["transitions"] for s in per_lib.values()),
+        "max_depth": max(s["max_depth"] for s in per_lib.values()),
+        "closed": all(s["closed"] for s in per_lib.values()),
+        "frontier_left": sum(s["frontier_left"] for s in per_lib.values()),
+    }
     ctx.coverage.update(st)
     ctx.coverage.update(
         {
+            "per_library": per_lib,
             "traces_validated_against_impl": st["transitions"],
             "evaluations": st["transitions"],
-            "distinct_nontrivial": max(0, st["states"] - 1),
+            "distinct_nontrivial": max(0, st["states"] - len(LIB_ORDER)),
             "reference_edit_lists": len(_EXPECT),
             "exhaustive": True,
-            "bound": {"history_length": depth, "edits_plus_obs_events": max_dev, "edits": max_edits, "obs_events": MAX_OBS,
-                      "trees": MAX_TREES},
-            "rule": "all histories of length <= %d with <= %d deviations (edit or obs events; <= %d edits, <= %d obs, an "
-            "obs event only where another event can follow it within the length) over "
-            "{deepcopy(tree_i)} x {add/remove symbol, add/remove equation, remove class on Leaf (component type) / Base "
-            "(base of an extends) / Top, add class} x {obs: every class of the live tree_i through tree.flatten in "
-            "place / sympy generate / xml generate, checked and kept in the history} on up to %d trees; after every "
-            "copy / edit event every tree is observed on a replay of its own (flatten of a deep copy; every route an earlier obs "
-            "event went through; thorough: flatten in place always); reference = fresh parse carrying only that tree's edits, same route, "
-            "computed up front; state = per-tree edit lists + copy ancestry + log of obs events (tree, route, tree's "
-            "edit count, number of trees at that time) + joint structural fingerprint of the live trees"
-            % (depth, max_dev, max_edits, MAX_OBS, MAX_TREES),
+            "bound": {
+                lib: {
+                    "history_length": LIBS[lib]["bounds"][ctx.tier][0],
+                    "edits_plus_obs_events": LIBS[lib]["bounds"][ctx.tier][1],
+                    "edits": LIBS[lib]["bounds"][ctx.tier][2],
+                    "obs_events": MAX_OBS,
+                    "trees": MAX_TREES,
+                    "edit_classes": LIBS[lib]["edit"][ctx.tier],
+                    "obs_routes": LIBS[lib]["routes"][ctx.tier],
+                }
+                for lib in LIB_ORDER
+            },
+            "rule": "per library (flat: top-level classes, component types + extends + modifications; pkg: packages, "
+            "package-qualified component type and extends, qualified and unqualified import in an enclosing package, class "
+            "nested two levels deep): all histories within the library's bound (length, deviations = edit or obs events, "
+            "edits; <= %d obs, an obs event only where another event can follow it within the length) over "
+            "{deepcopy(tree_i)} x {add/remove symbol, add/remove equation, remove class, replace class by a different class "
+            "of the same name (remove_class + add_class) on the library's edit classes, add class} x {obs: every class of the "
+            "live tree_i through the library's routes out of tree.flatten in place (one ComponentRef object per class name "
+            "for the whole history) / sympy generate / xml generate, checked and kept in the history} on up to %d trees; "
+            "after every copy / edit event every tree is observed on a replay of its own (flatten of a deep copy; every "
+            "route an earlier obs event went through; thorough: flatten in place always); reference = fresh parse carrying "
+            "only that tree's edits, same route, computed up front; state = library + per-tree edit lists + copy ancestry + "
+            "log of obs events (tree, route, tree's edit count, number of trees at that time) + joint structural "
+            "fingerprint of the live trees" % (MAX_OBS, MAX_TREES),
         }
     )
     ctx.assumptions.append("edits are applied through the AST API exactly as test/ast_test.py does")
@@ -344,6 +503,7 @@ def run(ctx):
 def replay(case):
     _init("thorough")
     hist = [tuple(ev) for ev in case["history"]]
+    lib = hist[0][1] if hist and hist[0][0] == "lib" else "flat"
     lists, per_tree = {()}, [()]
     for ev in hist:  # which edit lists occur: their reference results are computed before the history starts
         if ev[0] == "copy":
@@ -351,9 +511,11 @@ def replay(case):
         elif ev[0] == "edit":
             per_tree[ev[1]] = per_tree[ev[1]] + ((ev[2], ev[3]),)
             lists.add(per_tree[ev[1]])
-    prepare_expected(sorted({p[:n] for p in lists for n in range(len(p) + 1)}))
+    prepare_expected(lib, sorted({p[:n] for p in lists for n in range(len(p) + 1)}))
     ok = True
     for n in range(len(hist)):
+        if hist[n][0] == "lib":
+            continue
         _, v = step(hist[:n], hist[n])
         print(hist[n], "->", [m for _, m in v] or "ok")
         ok = ok and not v
